@@ -215,7 +215,7 @@ func genC18(seed uint64, run int, tier string) *Plan {
 			if r.IntN(6) == 0 {
 				add(Op{K: "gfs.abort"})
 			} else {
-				add(Op{K: "gfs.close"})
+				add(Op{K: "gfs.close", N: r.IntN(2)})
 				if tracked {
 					if r.IntN(8) == 0 {
 						add(Op{K: "gfs.delete"})
@@ -610,6 +610,13 @@ func (g *gfsRun) step(f *gfsFile, op *Op, shared bool) {
 		}
 		err := f.stream.Close()
 		e.logf("[file %d] close at %d -> %v", f.id, f.off, err)
+		if isInjected(err) && op.N == 1 && e.out.Faults["store-after"] == 0 {
+			// nothing was persisted by the failed attempt and the stream is still open: closing again must
+			// complete the upload exactly as if the first attempt had not happened
+			err = f.stream.Close()
+			e.logf("[file %d] close again -> %v", f.id, err)
+			e.probe("close-retried")
+		}
 		if isInjected(err) {
 			g.abortAfterFault(f, "Close")
 			return
